@@ -161,6 +161,49 @@ _B = {}
 HOST = "@gen/lcd_tick.py"
 
 
+def extra_obligations(mods, tier, seed):
+    """injection arm (finite back end on the real parser/emitter): for 0..2 animated LCDs, with and without buttons, with a
+    `continue` in the main loop body: loop_body starts with one LCDTick per animated display (after the button polls) and the
+    emitted loop() calls each tick helper exactly once, before the first user statement"""
+    import re
+    import time
+    from contracts.c08 import real
+    P, E = real("Reduino.transpile.parser"), real("Reduino.transpile.emitter")
+    out = []
+    t0 = time.time()
+    bad, n = [], 0
+    head = ("from Reduino.Displays import LCD\nfrom Reduino.Sensors import Button\nfrom Reduino.Communication import SerialMonitor\n"
+            "from Reduino.Utils import sleep\nmon = SerialMonitor(9600)\n")
+    decls = ["a = LCD(rs=22, en=23, d4=24, d5=25, d6=26, d7=27)\na.animate('scroll', 0, 'hello world', speed_ms=100)\n",
+             "b = LCD(i2c_addr=0x27)\nb.animate('blink', 1, 'hi', speed_ms=50)\n"]
+    for nl in (0, 1, 2):
+        for nb in (0, 1):
+            for body in ("    mon.write('user')\n    sleep(5)\n", "    k = k + 1\n    if k % 2 == 0:\n        continue\n    mon.write('user')\n    sleep(5)\n"):
+                src = head + "".join(decls[:nl]) + ("btn = Button(4)\n" if nb else "") + "k = 0\nwhile True:\n" + body
+                n += 1
+                try:
+                    prog = P.parse(src)
+                    cpp = E.emit(prog)
+                except Exception as ex:
+                    bad.append({"lcds": nl, "buttons": nb, "error": f"{type(ex).__name__}: {ex}"})
+                    continue
+                kinds = [type(x).__name__ for x in prog.loop_body]
+                want = ["ButtonPoll"] * nb + ["LCDTick"] * nl
+                if kinds[:len(want)] != want or "LCDTick" in kinds[len(want):]:
+                    bad.append({"lcds": nl, "buttons": nb, "loop_body_kinds": kinds[:8], "expected_head": want, "script": src})
+                    continue
+                loop = cpp[cpp.index("void loop()"):]
+                ticks = [m.start() for m in re.finditer(r"__redu_lcd_tick_\w+\(", loop)]
+                first_user = min([loop.find(x) for x in ("Serial.println", "k = (k + 1)") if loop.find(x) >= 0] or [len(loop)])
+                if len(ticks) != nl or any(t > first_user for t in ticks):
+                    bad.append({"lcds": nl, "buttons": nb, "tick_calls_in_loop": len(ticks), "problem": "each animated display is ticked exactly once per pass, before user code",
+                                "loop": loop[:500]})
+    out.append({"name": "C18/arms/one-tick-per-pass-before-user-code", "status": "discharged" if not bad else "sat", "backend": "enum",
+                "where": f"{n} (animated displays, buttons, body shape) combinations: LCDTick nodes head loop_body; loop() calls each tick helper once, first",
+                "time": round(time.time() - t0, 3), "replay": {"bad": bad[:3]}, "replay_confirmed": bool(bad)})
+    return out
+
+
 def extra_evidence():
     d = dict(c17.extra_evidence())
     d["host_tick_extraction"] = _B.get("host_extraction")
